@@ -203,7 +203,7 @@ def judge(ctx, groups, impl):
 
 def run(ctx):
     g = G(ctx.seed)
-    groups = gen(g, 50 if ctx.tier == 'quick' else 900)
+    groups = gen(g, 250 if ctx.tier == 'quick' else 900)
     cases = [c for grp, _ in groups for c in grp.values()]
     impl, model = run_apps(ctx, cases)
     judge(ctx, groups, impl)
